@@ -170,7 +170,7 @@ pub fn def(ctx: &Ctx) -> PropDef {
         };
         subs.push(PSub::boxed(
             format!("det/{}", ty.name()),
-            t.pick(1500, 100_000),
+            t.pick(4000, 300_000),
             move || {
                 let build = prop_oneof![
                     6 => gens::det_spec(ty, true).prop_map(Build::Spec),
@@ -185,11 +185,11 @@ pub fn def(ctx: &Ctx) -> PropDef {
             check_det,
         ));
     }
-    for part in 0..6 {
+    for part in 0..12 {
         let max_ops = t.pick(12, 40);
         subs.push(PSub::boxed(
             format!("jitter/{}", part),
-            t.pick(500, 50_000),
+            t.pick(1000, 100_000),
             move || {
                 let ops = proptest::collection::vec(prop_oneof![20 => crate::props::c12::jop(64), 1 => Just(JOp::TestTimer)], 0..=max_ops);
                 (gens::timer_prog(true, 16), proptest::option::weighted(0.85, gens::jitter_rounds()), ops, proptest::option::weighted(0.3, 0usize..12))
@@ -202,7 +202,7 @@ pub fn def(ctx: &Ctx) -> PropDef {
     // test_timer on the constructive timers of C13, including timers whose deltas sit at +-2^31
     subs.push(PSub::boxed(
         "jitter/test_timer-hostile",
-        t.pick(800, 80_000),
+        t.pick(3000, 300_000),
         || {
             (crate::props::c13::strategy(), proptest::collection::vec((100usize..400, gens::hostile_delta()), 0..=6))
                 .prop_map(|(mut case, inj)| {
